@@ -94,7 +94,7 @@ def h_roundtrip(params, ak, anum, ac0, ac1, ac2, an, bk, bnum, bc0, bc1, bc2, bn
 def h_arith(params, a0, a1, a2, b0, b1, la, lb, c0, c1):
   """Concatenation, parent, subtraction, prefix test, ordering vs tuple arithmetic on key lists.
   Keys are a mix of symbolic ints and strings chosen from a small set by symbolic selectors."""
-  pool = ['a', 'b', 'x.y', '0']
+  pool = ['a', 'b', 'x.y', '0', 'ab', 'x']       # incl. keys whose text is a prefix of another key's text
 
   def key(sel, num):
     if sel == 0:
